@@ -382,6 +382,8 @@ def key_columns(f, e, env, S):
                 if U(c.func.value) == x.id and not any(c in calls(lp) for lp in walk_own(f.node) if isinstance(lp, ast.For)):
                     out += elem(c.args[0])
             return out
+        if isinstance(x, ast.Attribute) and x.attr == "T" and U(x.value) in tid:
+            return [("treatments", "all")]          # iterating the transpose yields every treatment column
         if isinstance(x, ast.BinOp) and isinstance(x.op, ast.Add):
             a, b = walk(x.left), walk(x.right)
             return None if a is None or b is None else a + b
